@@ -21,7 +21,9 @@ type zzSpecStore struct {
 	hdrs       map[uint64]*zh.Hdr
 	head       *zh.Hdr
 	tail       *zh.Hdr
-	batches    [][]*zh.Hdr // every Append as received
+	batches    [][]*zh.Hdr // every Append as received (copied)
+	aliases    [][]*zh.Hdr // the very slices handed to Append: the real Store reads them later, asynchronously
+	overwrites int         // Appends that replaced a stored header by a different one of the same height
 	deletes    [][2]uint64
 	failAppend func() error // optional fault injection
 }
@@ -107,7 +109,11 @@ func (s *zzSpecStore) Append(_ context.Context, hs ...*zh.Hdr) error {
 		}
 	}
 	s.batches = append(s.batches, append([]*zh.Hdr{}, hs...))
+	s.aliases = append(s.aliases, hs)
 	for _, h := range hs {
+		if old, ok := s.hdrs[h.H]; ok && old != h {
+			s.overwrites++
+		}
 		s.hdrs[h.H] = h
 	}
 	if s.head == nil {
